@@ -88,7 +88,7 @@ M_XP == << MD("m1", <<"x">>, {"seq", "par"}, { G("X", <<Par("x")>>) }, { OLoop(L
 T_XP == { G("m1", <<QI("q", 0)>>), G("m2", <<QI("q", 1)>>), G("X", <<QI("q", 2)>>) }
 O_XP == { OSeq, OPar }
 \* a macro whose register parameter is NAMED like the register q, with the same statement text `X q[0]` inside and outside
-M_XC == << MD("kick", <<"q">>, {"seq"}, { G("X", <<QbP("q", I0)>>), G("X", <<QbP("q", Let("a"))>>) }, {}, 2) >>
+M_XC == << MD("kick", <<"q">>, {"seq"}, { G("X", <<QbP("q", I0)>>) }, { OSub(I1) }, 2) >>
 T_XC == { G("X", <<QI("q", 0)>>), G("X", <<Qb("q", Let("a"))>>), G("kick", <<RegA("r")>>), G("kick", <<RegA("q")>>) }
 O_XC == { OSeq, OSub(I1) }
 O_X == { OSeq, OPar, OLoop(Let("n"), FALSE), OSub(I1), OSub(Let("n")) }
